@@ -139,6 +139,11 @@ def corr_sim(ck, rng):
             sim = build_sim(N, comps, order, scale)
             names = list(sim.components.keys())
             same = np.allclose(sim.copy().simulate(N), out, atol=1e-4) and np.allclose(sim.replace(order=order).simulate(N), out, atol=1e-4)
+            for o_ in (0, 1, 3):
+                rep = sim.replace(order=o_)
+                same = same and rep.order == o_ and rep.scale == sim.scale and np.allclose(rep.simulate(N), build_sim(N, comps, o_, scale).simulate(N), atol=1e-4)
+            rs = sim.replace(scale=scale * 2)
+            same = same and rs.scale == scale * 2 and rs.order == order
             parts = sum(sim.subset(nm_).simulate(N) for nm_ in names)
             allsub = sim.subset(names).simulate(N)
             okd = same and np.allclose(parts, out, atol=1e-3) and np.allclose(allsub, out, atol=1e-4) and len(sim.collect_molecules()) == sum(len(m_) for _, m_ in comps)
